@@ -14,6 +14,12 @@ CHECKS = {
         text='Every argument text up to length 3 (thorough: 4, 3.3 M plans) over a 34-symbol metacharacter alphabet in each quoting style of the statement and six position templates, all ordered pairs of texts of length <= 1 in all style pairs and all lists of 0..6 operator-like arguments are planned by the real CommandLine::from_line in an adversarial environment (matching files, variables, aliases); the plan must be the verbatim argv with no background flag, redirection or assignment. The length <= 1 cases and operator-like pairs are also executed by the real binary.',
         note='Texts longer than the bound and words mixing quoting styles are outside the bound; plan level is bound to execution by the replayed subset.',
         ref='DESIGN.md §4 C01'),
+    'C03': dict(
+        engine='E1 bounded-exhaustive program enumeration on the real binary',
+        technique='bounded-exhaustive enumeration of all operator/status programs up to a length, executed by the real binary and compared step by step with a reference interpreter (no sampling)',
+        text='All programs p1 op ... pn with op in {; && ||} and statuses {0,1} up to n = 5 (thorough 6), all programs up to n = 2 (3) with statuses {0,1,2,255}, decoy variants with quoted/escaped operators and two-stage pipelines as members, run by the real binary with -c and as script files; the record sequence, every $? probe and the process exit status must equal a reference interpreter.',
+        note='Programs longer than the bound and the interactive entry point are outside; every pipeline is a recording helper program.',
+        ref='DESIGN.md §4 C03'),
     'C05': dict(
         engine='E1 bounded-exhaustive input sweep (in-process) + real binary',
         technique='bounded-exhaustive enumeration of all input strings up to a length over explicit alphabets, run through the real code (explicit-state style exploration, no sampling)',
